@@ -18,6 +18,10 @@ import (
 	"github.com/thushan/olla/internal/logger"
 )
 
+// ErrCircuitOpen is returned by a proxy attempt that was skipped because the
+// endpoint's circuit breaker is open. The retry handler moves on to the next candidate.
+var ErrCircuitOpen = errors.New("circuit breaker open")
+
 // RetryHandler manages connection failure recovery and endpoint failover
 type RetryHandler struct {
 	logger           logger.StyledLogger
@@ -81,6 +85,12 @@ func (h *RetryHandler) ExecuteWithRetry(
 
 		if lastErr == nil {
 			return nil
+		}
+
+		if errors.Is(lastErr, ErrCircuitOpen) && !tracked.started {
+			// Endpoint was skipped, not tried: leave its health status alone and use the next candidate
+			availableEndpoints = h.removeFailedEndpoint(availableEndpoints, endpoint)
+			continue
 		}
 
 		if !IsConnectionError(lastErr) {
